@@ -265,7 +265,7 @@ def build_argv(case, tmp, T):
         tgraphs.append(lst)
         ttoks += ['-T'] + tr.tokens(tp, g2)
     glob = []
-    if case.get('seed'):
+    if case.get('seed') is not None:
         glob += [case.get('seedopt', '--seed'), str(case['seed'])]
     glob += list(case.get('glob', []))
     argv = [case['tool']] + glob + ftoks + ttoks
@@ -295,7 +295,7 @@ def lib_stream(case, graphs, tgraphs, tmp, T, L, fc):
     stand for (a single one unless a random object is matched existentially)."""
     f = case['f']
     chain = case.get('T') or []
-    seed = case.get('seed') or case.get('hseed')
+    seed = case.get('seed') if case.get('seed') is not None else case.get('hseed')
     if seed is not None:
         random.seed(seed)
     if 'base' in f:
@@ -771,7 +771,7 @@ def check_render_case(case, tmp, T, R=None):
         glob += [case.get('oopt', '-o'), opath]
     elif case.get('odash'):
         glob += ['-o', '-']
-    if case.get('seed'):
+    if case.get('seed') is not None:
         glob += ['--seed', str(case['seed'])]
     argv = [tool] + glob + list(btoks)
     fmt = expected_format(tool, case['of'], case.get('out'))
@@ -791,7 +791,7 @@ def check_render_case(case, tmp, T, R=None):
         return out, 'violation'
     got = signature(Fc)
     if blib is not None:
-        if case.get('seed'):
+        if case.get('seed') is not None:
             random.seed(case['seed'])
         Fref = blib(L, fc)
         d = formula_diff(got, signature(Fref))
@@ -800,9 +800,9 @@ def check_render_case(case, tmp, T, R=None):
             return out, 'violation'
     else:
         Fref = Fc
-    if 'random seed' in Fc.header and not case.get('seed'):
+    if 'random seed' in Fc.header and case.get('seed') is None:
         bad('header', 'argv=%r: header has a random seed entry without --seed' % (argv[1:],))
-    if case.get('seed') and Fc.header.get('random seed') != case['seed']:
+    if case.get('seed') is not None and Fc.header.get('random seed') != case['seed']:
         bad('header', 'argv=%r: header random seed is %r' % (argv[1:], Fc.header.get('random seed')))
     Fref.header = OrderedDict(Fc.header)
     random.seed(hseed(case))
@@ -1000,7 +1000,7 @@ def formula_cases(tier, seed):
         for f in sub.cases(tier):
             seeds = [None]
             if sub.random:
-                seeds = [7] if not getattr(sub, 'seeded', False) else [7, 2311]
+                seeds = [7] if not getattr(sub, 'seeded', False) else [7, 2311, 0]
                 if tier == 'thorough':
                     seeds = seeds + [46512]
             for i, s in enumerate(seeds):
@@ -1060,6 +1060,20 @@ def chain_cases(tier, seed):
         f = {'cmd': 'peb', 'v': 'D', 'p': [], 'g': [gd], 'o': [], 'place': 'pre', 'ov': {}}
         cs.append({'kind': 'formula', 'tool': 'cnfgen', 'f': f, 'T': [[a, T.PAIR_PARAMS[a]], ['or', [2]]],
                    'seed': 7})
+    # randomness at parse time (random graph argument, stored by 'save') AND at
+    # build time (shuffle, mirrored by re-seeding): the seed must be applied
+    # again before the formula is built, whatever its value (0 included)
+    rnd_graphs = [g for g in T.SIMPLE_CORE + T.SIMPLE_MORE
+                  if g['lib'][0] == 'saved' and g['tok'][0] in ('gnp', 'gnm', 'gnd')][:4]
+    for gi, g in enumerate(rnd_graphs):
+        for sd in (0, 7, 2311):
+            f = {'cmd': 'kcolor', 'v': 'G', 'p': [2 + gi % 2], 'g': [g], 'o': [], 'place': 'pre', 'ov': {}}
+            c = {'kind': 'formula', 'tool': 'cnfgen', 'f': f,
+                 'T': [['shuffle', T.PAIR_PARAMS['shuffle']]] + ([['or', [2]]] if gi % 2 else []),
+                 'seed': sd}
+            if sd == 2311:
+                c['seedopt'] = '-S'
+            cs.append(c)
     # a few extra mid-size chains rotated by VERIF_SEED (never the core)
     extra = [['maj', [3]], ['xor', [3]], ['lift', [3]], ['exact', [3, 2]], ['eq', [3]], ['one', [3]]]
     for i in range(2):
